@@ -148,10 +148,100 @@ def r_iter_skip_loop(sig, body, arg):
             break
         e = body[o + 1:c]
         b, xs = m.group(1), m.group(2)
-        body = (body[:m.start()] + "for vx_i in (%s)..%s.len() { let %s = %s[vx_i];" % (e, xs, b, xs)
+        body = (body[:m.start()] + "for vx_i in (%s)..%s.len() {\n        let %s = %s[vx_i];" % (e, xs, b, xs)
                 + rest[mm.end():])
         n += 1
     return sig, body, n
+
+
+def _strip_deref(text, names):
+    """R4b: strip a leading `*` on exactly the given binder names."""
+    n = 0
+    for nm in names:
+        text, c = re.subn(r"\*\s*%s\b" % re.escape(nm), nm, text)
+        n += c
+    return text, n
+
+
+def _binder_names(pat):
+    return [w for w in re.findall(r"[A-Za-z_]\w*", pat) if w not in ("mut", "ref")]
+
+
+def r_map_collect(sig, body, arg):
+    """R4: `let NAME = SRC.iter().map(|B| EXPR).collect_vec();` -> push loop (B by value)."""
+    pat = re.compile(r"let\s+(\w+)\s*=\s*(\w+)\s*\.iter\(\)\s*\.map\(\|\s*([^|]+?)\s*\|\s*(.+?)\)\s*\.collect_vec\(\);", re.S)
+    n = 0
+
+    def rep(m):
+        nonlocal n
+        name, src, b, expr = m.groups()
+        expr2, _ = _strip_deref(expr, _binder_names(b))
+        n += 1
+        return ("let mut %s = Vec::new();\n    for vx_i in 0..%s.len() {\n        let %s = %s[vx_i];\n        %s.push(%s);\n    }"
+                % (name, src, b, src, name, expr2))
+    body = pat.sub(rep, body)
+    return sig, body, n
+
+
+def r_map_sum(sig, body, arg):
+    """R4: `let NAME = SRC.iter().map(|PAT| EXPR).sum::<T>();` -> accumulator loop."""
+    pat = re.compile(r"let\s+(\w+)\s*=\s*(\w+)\s*\.iter\(\)\s*\.map\(\|\s*([^|]+?)\s*\|\s*(.+?)\)\s*\.sum::<(\w+)>\(\);", re.S)
+    n = 0
+
+    def rep(m):
+        nonlocal n
+        name, src, b, expr, ty = m.groups()
+        expr2, _ = _strip_deref(expr, _binder_names(b))
+        n += 1
+        return ("let mut %s: %s = 0;\n    for vx_i in 0..%s.len() {\n        let %s = %s[vx_i];\n        %s += %s;\n    }"
+                % (name, ty, src, b, src, name, expr2))
+    body = pat.sub(rep, body)
+    return sig, body, n
+
+
+def r_iter_take_loop(sig, body, arg):
+    """R4/R4b: `for PAT in SRC.iter().take(E) {` -> `for vx_i in 0..vx_min(E, SRC.len()) { let PAT = SRC[vx_i];`
+    and a leading `*` on PAT's binders is stripped inside that loop body."""
+    from . import extract as X
+    n = 0
+    pat = re.compile(r"for\s+(\([^)]*\)|\w+)\s+in\s+(\w+)\.iter\(\)\.take\(")
+    while True:
+        m = pat.search(body)
+        if not m:
+            break
+        o = m.end() - 1
+        depth, c = 0, -1
+        for k in range(o, len(body)):
+            if body[k] == "(":
+                depth += 1
+            elif body[k] == ")":
+                depth -= 1
+                if depth == 0:
+                    c = k
+                    break
+        mm = re.match(r"\s*\{", body[c + 1:])
+        if c < 0 or not mm:
+            break
+        bo = c + 1 + mm.end() - 1
+        bc = X.match_brace(X.mask(body), bo)
+        inner, _ = _strip_deref(body[bo + 1:bc], _binder_names(m.group(1)))
+        e = body[o + 1:c]
+        body = (body[:m.start()] + "for vx_i in 0..vx_min(%s, %s.len()) {\n        let %s = %s[vx_i];" % (e, m.group(2), m.group(1), m.group(2))
+                + inner + body[bc:])
+        n += 1
+    return sig, body, n
+
+
+def r_last_unwrap(sig, body, arg):
+    """R14/R4b: `let PAT = SRC.last().unwrap();` -> `let PAT = SRC[SRC.len() - 1];` (by value), and a
+    leading `*` on PAT's binders is stripped in the rest of the enclosing text."""
+    pat = re.compile(r"let\s+(\([^)]*\)|\w+)\s*=\s*(\w+)\.last\(\)\.unwrap\(\);")
+    m = pat.search(body)
+    if not m:
+        return sig, body, 0
+    rest, _ = _strip_deref(body[m.end():], _binder_names(m.group(1)))
+    body = body[:m.start()] + "let %s = %s[%s.len() - 1];" % (m.group(1), m.group(2), m.group(2)) + rest
+    return sig, body, 1
 
 
 RULES = {
@@ -162,6 +252,10 @@ RULES = {
     "BitVecIndex": r_bitvec_index,
     "DivModFloor": r_div_mod_floor,
     "IterSkipLoop": r_iter_skip_loop,
+    "MapCollect": r_map_collect,
+    "MapSum": r_map_sum,
+    "IterTakeLoop": r_iter_take_loop,
+    "LastUnwrap": r_last_unwrap,
 }
 RULE_IDS = {"Self": "R1", "Generic": "R1", "BoolAssign": "R2", "ForUnderscore": "R3",
             "BitVecIndex": "R6"}
